@@ -140,7 +140,11 @@ class Gen:
         elif c == "withcap":
             self.emit(f"withcap {r.choice([0, 1, 3, 4, 7, 8, 14, 15, 28, 29, 56, 100])}"); self.contents = {}
 
-def make_script(rng, name, kind=None, plan=None, nkeys=None, length=None, clone_ops=False):
+ARMS = ["hashpanic_nth", "hashpanic_nth", "hashpanic_key", "eqpanic_nth", "droppanic_nth", "clonepanic_nth", "predpanic_nth", "refuse_nth"]
+
+def make_script(rng, name, kind=None, plan=None, nkeys=None, length=None, clone_ops=False, faults=0.0, calldep=None, arms=None):
+    """faults: probability that an operation is preceded by an `arm` line (the k-th callback of a
+    class panics / the allocator refuses); calldep: "hash" / "eq" / "both" = inconsistent Hash / Eq."""
     kind = kind or rng.choice(["map-drop", "map-drop", "map-plain"])
     plan = plan or rng.choice(PLANS)
     nkeys = nkeys or rng.choice([6, 12, 24, 40, 80, 130])
@@ -148,6 +152,10 @@ def make_script(rng, name, kind=None, plan=None, nkeys=None, length=None, clone_
     g = Gen(rng, nkeys, plan, kind)
     g.resync = False
     g.header()
+    if calldep in ("hash", "both"):
+        g.emit("hashrule calldep")
+    if calldep in ("eq", "both"):
+        g.emit("eqrule calldep")
     steps = 0
     while steps < length:
         phase = rng.choice(["fill", "fill", "churn", "churn", "remove", "lookup", "misc", "misc", "tomb"])
@@ -156,6 +164,19 @@ def make_script(rng, name, kind=None, plan=None, nkeys=None, length=None, clone_
             if g.resync:
                 # extract_if made the generator's view stale: emit a clear to get back in sync
                 g.emit("clear"); g.contents = {}; g.resync = False; steps += 1
+            if faults and rng.random() < faults:
+                a = rng.choice(arms or ARMS)
+                if a == "hashpanic_key":
+                    g.emit(f"arm hashpanic_key {g.anykey()}")
+                elif a == "refuse_nth":
+                    # only fallible requests may be refused (an infallible one aborts the process)
+                    g.emit(f"arm refuse_nth {rng.choice([0, 0, 1])}")
+                    g.emit(f"tryreserve {rng.choice([1, 2, 8, 29, 57, 100, 1000, rng.randrange(0, 4 * (len(g.contents) + 4)), (1 << 64) - 1, (1 << 63), (1 << 61) - 1, (1 << 60)])}")
+                    steps += 1
+                    continue
+                else:
+                    g.emit(f"arm {a} {rng.choice([0, 0, 1, 2, 3, 5, 8, 13])}")
+                g.resync = True          # after a possible unwind the generator's view is stale
             if clone_ops and rng.random() < 0.12:
                 c = rng.choice(["o_clone", "o_clone_from", "o_swap", "o_eq", "o_eq", "o_clone_from", "o_clone"])
                 g.emit(c)
